@@ -1306,6 +1306,22 @@ func (vc *VC) evalCompositeLit(st *State, x *ast.CompositeLit) Val {
 		if isByteArraySmall(u) && len(x.Elts) == 0 {
 			return vc.mk("0", t)
 		}
+		if isByteArraySmall(u) {
+			// big-endian number of the listed bytes (missing trailing elements are zero)
+			var terms []string
+			keyed := false
+			for i, el := range x.Elts {
+				if _, ok := el.(*ast.KeyValueExpr); ok {
+					keyed = true
+					break
+				}
+				v := vc.evalConv(st, el, u.Elem())
+				terms = append(terms, fmt.Sprintf("(* %s %s)", v.S, pow256(u.Len()-1-int64(i))))
+			}
+			if !keyed {
+				return vc.mk("(+ 0 "+strings.Join(terms, " ")+")", t)
+			}
+		}
 		es := vc.sortOf(u.Elem())
 		arr := vc.eng.sorts.zeroOfSort("(Array Int "+es+")", nil)
 		for i, el := range x.Elts {
